@@ -353,6 +353,11 @@ class Interp:
             return SGen(run)
         if "expect" in f.decorators:
             self.expect_pre(f, args)
+        if f.is_async:
+            # coroutine functions run eagerly when called (calls are immediately awaited in the contracted code); their
+            # `await`s on environment awaitables go to the enclosing consumer like yields (suspension points)
+            up = sink if sink is not None else (self.frames[-1].sink if self.frames else None)
+            return self.run_body(f, env, up, self_)
         return self.run_body(f, env, None, self_)
 
     def expect_pre(self, f, args):
@@ -522,6 +527,9 @@ class Interp:
             if name == "__class__":
                 return SConst(obj.cls)
             if name == "__dict__":
+                view = getattr(self.lib, "obj_dict_view", None)  # write-through view (libx_tools), else a snapshot
+                if view is not None:
+                    return view(obj)
                 return SDict([(SStr(k), v) for k, v in obj.fields.items()])
             k, attr = self.find_in_mro(obj.cls, name)
             if k is None:
@@ -566,6 +574,13 @@ class Interp:
                 return lift(getattr(o, name))
             except AttributeError:
                 raise Unsupported(f"attribute {name} of {o!r}")
+        if isinstance(obj, SEnum):
+            # method defined by the enum class itself in interpretable source (e.g. ErrorCode.http_status_code)
+            k, attr = self.find_in_mro(obj.cls, name)
+            if k is not None and isinstance(attr, types.FunctionType) and k.__module__ not in ("enum", "builtins"):
+                f = self.ifunc_from_classattr(k, name, attr)
+                if f is not None:
+                    return SBound(obj, f)
         # builtin-typed values: methods handled by lib
         return SConst(("method", obj, name))
 
@@ -755,6 +770,9 @@ class Interp:
             m = self.find_method(fv.cls, "__call__")
             if m is not None:
                 return self.call_ifunc(m, [fv] + list(args), kwargs)
+            bm = self.lib.builtin_method_model(fv.cls, "__call__")
+            if bm is not None:
+                return bm(self, fv, *args, **kwargs)
         raise Unsupported(f"call of {fv!r}")
 
     # -- statements -----------------------------------------------------------------------------
@@ -922,6 +940,8 @@ class Interp:
         exits = []
         for item in s.items:
             cm = self.resolve(self.eval(item.context_expr))
+            if isinstance(cm, SGen) and len(s.items) == 1:
+                return self.exec_with_genctx(s, item, cm)
             val, exit_ = self.lib.enter_context(self, cm)
             exits.append(exit_)
             if item.optional_vars is not None:
@@ -945,6 +965,36 @@ class Interp:
             e(None)
 
     exec_AsyncWith = exec_With
+
+    def exec_with_genctx(self, s, item, g):
+        """`with gen_cm() [as x]: body` for a @contextmanager generator function of the code under contract.
+        Generators run eagerly, so the with-body is executed *inside* the generator's single yield (continuation style):
+        an exception of the body surfaces at the yield exactly like contextmanager's gen.throw(); if the generator handles it
+        and finishes, the with-statement swallows it; return/break/continue of the body resume the generator normally
+        (as __exit__(None, None, None) does) and are re-raised afterwards."""
+        fr = self.frames[-1]
+        state = {"n": 0, "sig": None}
+
+        def sink(v):
+            state["n"] += 1
+            if state["n"] > 1:
+                self.raise_(RuntimeError, "generator didn't stop")
+            self.frames.append(fr)
+            try:
+                if item.optional_vars is not None:
+                    self.assign(item.optional_vars, v)
+                self.exec_block(s.body)
+            except (ReturnSig, BreakSig, ContinueSig) as sig:
+                state["sig"] = sig
+            finally:
+                self.frames.pop()
+            return NONE
+
+        self.consume_gen(g, sink)
+        if state["n"] == 0:
+            self.raise_(RuntimeError, "generator didn't yield")
+        if state["sig"] is not None:
+            raise state["sig"]
 
     def exec_While(self, s):
         fr = self.frames[-1]
@@ -1018,10 +1068,13 @@ class Interp:
                 raise Unsupported("invariant on a for-loop over a non-sequence")
             idx = SInt(0)
         self.ex.obligation(f"{name}/inv.entry", inv(self, fr.locals, idx))
+        self.ex.used_invariant = True  # states after the havoc need not be reachable: no native conformance sample for this path
         # havoc
         for v in sorted(_assigned_names(s)):
             if v in fr.locals:
                 fr.locals[v] = self.havoc_like(fr.locals[v], v)
+        if hasattr(inv, "havoc"):
+            inv.havoc(self, fr.locals)  # scenario-defined havoc of heap / ghost state modified by the loop
         for h in inv.havoc_fields if hasattr(inv, "havoc_fields") else []:
             obj, field = h(self, fr.locals)
             obj.fields[field] = self.havoc_like(obj.fields[field], field)
@@ -1202,6 +1255,12 @@ class Interp:
             return lift(v)
         if hasattr(builtins, name):
             return SConst(getattr(builtins, name))
+        if name.startswith("__") and not name.endswith("__") and fr.func is not None and fr.func.cls is not None and fr.func.qualname.endswith(".<default>"):
+            # parameter default evaluated in the class body scope: `def pop(self, key, default=__marker)` (class-private name)
+            mn = "_" + fr.func.cls.__name__.lstrip("_") + name
+            for k in fr.func.cls.__mro__:
+                if mn in k.__dict__:
+                    return lift(k.__dict__[mn])
         raise Unsupported(f"unresolved name {name}")
 
     def mangle(self, attr):
@@ -1372,7 +1431,14 @@ class Interp:
 
     def eval_Await(self, e):
         v = self.resolve(self.eval(e.value))
-        return self.ex.on_await(self, v)
+        if isinstance(v, SConst) and isinstance(v.obj, tuple) and v.obj and v.obj[0] == "awaitable":
+            # suspension point on an environment awaitable: hand it to the consumer (vc.call's on_yield)
+            fr = self.frames[-1]
+            if fr.sink is None:
+                raise Unsupported("await without a consumer")
+            return fr.sink(v)
+        # awaiting the result of an (eagerly run) interpreted coroutine function
+        return v
 
     def eval_NamedExpr(self, e):
         v = self.eval(e.value)
